@@ -169,4 +169,10 @@ def recursive_programs():
     out.append(("exit-in-while-condition", 'fn main() { let out = ""; let n = 0; for i in 0..4 { let j = 0; while { if j == 1 && i == 2 { break; } j < 2 } { out += "b"; j += 1; } out += "o"; n += 1; } println(out, n);\n'
                 '  let k = 0; let seen = ""; loop { k += 1; if k > 4 { break; } let m = 0; while { if k == 2 && m == 0 { seen += "c"; continue; } m < 1 } { m += 1; seen += "w"; } seen += "e"; } println(k, seen);\n'
                 '  for q in 0..2 { try { let t = 0; while { if t == 1 { continue; } t < 3 } { t += 1; } println("not reached", q); } catch e { println("never"); } } try { throw("final"); } catch e { println("caught", e.message); } }\n'))
+    # every kind of fatal error under handlers at several depths (own activation, one call below): none is catchable
+    for i, e in enumerate(["println(7 % z);", "let a = 7; a %= z; println(a);", "println(7 / z);", "let b = 7; b /= z; println(b);", "println(1 << (z - 1));",
+                           "println([1, 2][z + 5]);", "let l = [1]; l[z - 9] = 2; println(l);", "println(1.5 / (z as float));"]):
+        out.append((f"fatal-kind-{i}", 'fn deep(z: int) { try { ' + e + ' } catch inner { println("inner caught", inner.message); } println("deep goes on"); }\n'
+                    'fn main() { let z = 0; for i in 0..2 { try { println("round", i); if i == 1 { deep(z); } try { if i == 1 { ' + e + ' } } catch e1 { println("caught", e1.message); } println("goes on", i); } '
+                    'catch e2 { println("outer caught", e2.message); } } println("end"); }\n'))
     return out
